@@ -35,15 +35,31 @@ RULE = (
     "with a back-off) rotate with the table index (they do not alter the trie shape). Values come "
     "from a quarter-integer grid (VERIF_SEED = filler only). Per table: EVERY history of length "
     "0..3 (quick) / 0..4 over the key alphabet, as one batch per length; forward call for every "
-    "length; calc_full_log_probs_chunked with every chunk size 1..T+2 (quick: chunk 1 of the shorter "
-    "lengths only through the forward call); scalar idx for every index as int and as negative "
+    "length; calc_full_log_probs_chunked with every chunk size 1..T+2 (quick: for the shorter "
+    "lengths chunk 1 only through the forward call, then chunk 2 and t+2); the longest batch also as "
+    "an offset view behind foreign rows (chunked on every table, forward on every other) and as a "
+    "transposed-dense view (every other table); scalar idx for every index as int and as negative "
     "0-dim / 1-element tensor; per-element idx: for every minimum m one batch holding every "
     "(history, idx>=m) pair, all (T+1)^B idx vectors for B<=2 on every table and for B=3 on every "
     "8th (quick) / 4th (thorough) table; state_dict (every other table also through torch.save/load) "
     "-> fresh LookupLanguageModel(V, sos) -> load_state_dict -> full / chunked / scalar / vector "
-    "calls again. ARPA: every table is written in two layouts (explicit vs implicit zero back-offs, "
+    "calls again. Guards on every call: the tensors handed in (hist, idx, views, a foreign entry in "
+    "prev and the prev dict itself; the caller's prob_dicts when destructive=False; token2id) are "
+    "unchanged afterwards; two kept results (a forward call and a scalar-idx call) are unchanged after "
+    "all later calls, after save/load and after the reuse below. Object history: the table is also "
+    "loaded (load_state_dict) into the object that was constructed from and called with the PREVIOUS "
+    "table of the same (V, sos) in the shard (more or fewer n-grams, at family borders another order) "
+    "and must then answer like the fresh instance, and the result kept from that object before the "
+    "load must not change; one dedicated shard drives ONE LookupLanguageModel(17,-1) through "
+    "load_state_dict of X then Y for every ordered pair of five tables (order 1/2/3, 20..300 nodes, "
+    "uint8<->int16 offsets both ways) with lengths and batch sizes changing between the calls. "
+    "On every 4th table (all in thorough) int32/int16 hist and 0-dim / 1-dim idx tensors: the docs "
+    "name only long, so a raise is accepted, a returned result must equal the oracle. "
+    "ARPA: every table is written in two layouts (explicit vs implicit zero back-offs, "
     "blanks vs tabs, fixed vs exponent numbers, preamble) x two token namings and read from a file "
-    "object and from a path, base 10 / base e / default, with and without token2id. Width "
+    "object (both layouts) and from a path (one layout per table, alternating), base 10 / base e / "
+    "default, with and without token2id; the result object of the previous parse (other text) must be "
+    "unchanged after the next parse (no state shared between calls). Width "
     "crossings: levels of 236..300 nodes around the uint8/int16 offset limits (orders 2..4) and "
     "V=253..256 around the uint8/int16 id limit. One evaluation = one compared next-token "
     "distribution or one parse; a non-trivial case = one (table of order>=2, padded context) pair "
@@ -55,6 +71,9 @@ ASSUMPTIONS = [
     "grid values are exactly representable so sums are exact; comparison tolerance 1e-6, -inf must match -inf",
     "log-0 is written -99 in ARPA text (the reader has no spelling for -inf); the expected entry is then -99",
     "history tokens are vocabulary ids or the start symbol; back-off weights are finite",
+    "hist / idx are documented as long tensors: int32/int16 are probed but a raise there is not a violation; "
+    "uint8 (cannot hold sos=-1 or negative idx) and float inputs are not probed",
+    "prev carries no state for this model: only 'handed-in dict and its tensors unchanged' is checked",
     "for the V>=253 tables only histories of length<=1 plus 600 structured length-2 histories are used",
     "TorchScript-compiled and CUDA variants not explored",
 ]
@@ -395,6 +414,7 @@ def shards(tier, seed):
     bigs = big_specs(tier)
     for j in range(0, len(bigs), 3):
         specs.append({"kind": "big", "ids": list(range(j, min(j + 3, len(bigs))))})
+    specs.append({"kind": "history"})
     # families are listed simplest first (order 1, then 2, ...) and the width-crossing tables last, so
     # the violations that are kept (first few per signature) are the smallest ones
     return specs
@@ -480,7 +500,10 @@ def _agree(out, exp):
     return bad
 
 
-def check_model(ctx, V, sos, dicts, hists, index, b3, base_case, save_load=False, every_chunk=True):
+def check_model(ctx, V, sos, dicts, hists, index, b3, base_case, save_load=False, every_chunk=True,
+                carrier=None):
+    """Returns the constructed model object (after all its calls) so that the next table can be loaded
+    into it (object history), or None.  ``carrier``: {"lm", "dicts" (json), "kept": (tensor, clone)}."""
     N = len(dicts)
     sos_in = 0 <= sos < V
     sig0 = {"api": "LookupLanguageModel", "order": N, "sos_in_vocab": sos_in}
@@ -488,20 +511,25 @@ def check_model(ctx, V, sos, dicts, hists, index, b3, base_case, save_load=False
     T = m.T
     ids_dtype = None
 
+    base_case_ref = [base_case]
+
     def viol(mode, symptom, detail, **extra):
         if isinstance(detail, dict) and ids_dtype is not None:
             detail = dict(detail, ids_dtype=ids_dtype)
-        ctx.violation(dict(sig0, mode=mode, symptom=symptom, **extra), dict(base_case), detail)
+        ctx.violation(dict(sig0, mode=mode, symptom=symptom, **extra), dict(base_case_ref[0]), detail)
 
     try:
         if index % 2:
             lm = LookupLanguageModel(V, sos, [dict(d) for d in dicts], destructive=True)
         else:
-            lm = LookupLanguageModel(V, sos, prob_dicts=[dict(d) for d in dicts])
+            handed = [dict(d) for d in dicts]
+            lm = LookupLanguageModel(V, sos, prob_dicts=handed)
+            if handed != dicts:  # destructive=False promises a fresh copy
+                viol("construct", "argument-modified", {"argument": "prob_dicts", "after": repr(handed)[:300]})
     except Exception as e:
         ctx.case(1, 1 if N > 1 else 0)
         viol("construct", "raises", {"error": repr(e)[-400:]}, type=type(e).__name__)
-        return
+        return None
     sig0["offsets_dtype"] = str(lm.offsets.dtype).replace("torch.", "")
     ids_dtype = str(lm.ids.dtype).replace("torch.", "")
     ctx.count("offsets_" + sig0["offsets_dtype"])
@@ -511,24 +539,33 @@ def check_model(ctx, V, sos, dicts, hists, index, b3, base_case, save_load=False
     for c in list(m.memo)[:4]:
         ctx.outcome(hash(tuple(m.memo[c])) & 0xFFFFFFFFFFFF)
 
-    def compare(mode, fn, exp, info, reloaded=False):
-        """fn() -> tensor; exp tensor.  One library call, exp.numel()/V evaluated distributions."""
+    def compare(mode, fn, exp, info, reloaded=False, args=(), may_reject=False):
+        """fn() -> tensor; exp tensor.  One library call, exp.numel()/V evaluated distributions.
+        args: tensors handed to the call, which must come back unmodified.  may_reject: the input is
+        outside the documented dtypes - a raise is accepted, a returned result must still be right."""
         ctx.case(exp.numel() // V)
-        md = ("reload/" + mode) if reloaded else mode
+        md = reloaded + "/" + mode if isinstance(reloaded, str) else (("reload/" + mode) if reloaded else mode)
+        before = [a.clone() for a in args]
         try:
             out = fn()
             if isinstance(out, tuple):
                 out = out[0]
             out = out.detach()
         except Exception as e:
+            if may_reject:
+                ctx.count("undocumented_dtype_rejected")
+                return None
             viol(md, "raises", dict(info, error=repr(e)[-400:]), type=type(e).__name__)
-            return False
+            return None
+        for k, (a, b) in enumerate(zip(args, before)):
+            if a.shape != b.shape or not torch.equal(a, b):
+                viol(md, "argument-modified", dict(info, argument=k, before=b, after=a))
         bad = _agree(out, exp)
         if bad is None:
-            return True
+            return out
         if bad == "shape":
             viol(md, "wrong-shape", dict(info, expected=list(exp.shape), observed=list(out.shape)))
-            return False
+            return None
         o, e = out[tuple(bad)].item(), exp[tuple(bad)].item()
         if o != o:
             sym = "nan"
@@ -537,7 +574,19 @@ def check_model(ctx, V, sos, dicts, hists, index, b3, base_case, save_load=False
         else:
             sym = "wrong-logprob"
         viol(md, sym, dict(info, position=bad, expected=e, observed=o))
-        return False
+        return None
+
+    kept = []  # (description, result tensor, its clone): must still be equal after all later calls
+
+    def keep(what, out):
+        if out is not None:
+            kept.append((what, out, out.clone()))
+
+    def check_kept(when):
+        for what, out, cl in kept:
+            if out.shape != cl.shape or not bool(((out == cl) | ((out != out) & (cl != cl))).all()):
+                viol("kept-result", "result-changed-by-later-call", {"result_of": what, "checked": when,
+                                                                     "before": cl, "after": out})
 
     def vec_batch(model, t, mmin, reloaded=False):
         hs = m.hists[t]
@@ -550,7 +599,7 @@ def check_model(ctx, V, sos, dicts, hists, index, b3, base_case, save_load=False
         hist = m.h[t][:, bs]
         exp = m.exp[t][is_, bs]
         compare("idx-vector", lambda: model(hist, idx=is_), exp,
-                {"T": t, "min_idx": mmin, "batch": "every (history, idx>=min)"}, reloaded)
+                {"T": t, "min_idx": mmin, "batch": "every (history, idx>=min)"}, reloaded, args=(hist, is_))
 
     with torch.no_grad():
         # ---- all positions at once, every history length ------------------------------------
@@ -561,32 +610,67 @@ def check_model(ctx, V, sos, dicts, hists, index, b3, base_case, save_load=False
                 exp0 = m.exp[0].expand(1, 2, V)
             else:
                 exp0 = m.exp[t]
-            compare("full", lambda: lm(hist), exp0, {"T": t})
+            if t == T:
+                marker = torch.tensor([3.5, -1.0])
+                prev = {"c06": marker}
+                out = compare("full", lambda: lm(hist, prev), exp0, {"T": t, "prev": "one foreign entry"},
+                              args=(hist, marker))
+                if list(prev) != ["c06"] or prev["c06"] is not marker:
+                    viol("full", "argument-modified", {"argument": "prev", "after": repr(prev)[:200]})
+            else:
+                out = compare("full", lambda: lm(hist), exp0, {"T": t}, args=(hist,))
+            if t == T:  # later same-shape calls on this object: chunked, views, and the next table (reuse)
+                keep("full call, T=%d" % t, out)
             # ---- the same history handed in as a view: behind two foreign rows of a larger tensor
             # (non-zero storage offset) and as the transpose of a (B, T) tensor (non-contiguous) ----
             if t == T and t >= 1:
                 front = (hist[:1] + 1).remainder(V).expand(2, hist.size(1))
                 off_view = torch.cat([front, hist], 0)[2:]
-                nc_view = hist.t().contiguous().t()
-                compare("full/offset-view", lambda: lm(off_view), exp0, {"T": t, "layout": "offset"})
-                compare("full/transposed-view", lambda: lm(nc_view), exp0, {"T": t, "layout": "transposed"})
                 compare("chunked/offset-view", lambda: lm.calc_full_log_probs_chunked(off_view, dict(), 2), exp0,
-                        {"T": t, "chunk_size": 2, "layout": "offset"})
+                        {"T": t, "chunk_size": 2, "layout": "offset"}, args=(off_view,))
+                if every_chunk or index % 2 == 0:
+                    compare("full/offset-view", lambda: lm(off_view), exp0, {"T": t, "layout": "offset"})
+                if every_chunk or index % 2 == 1:
+                    nc_view = hist.t().contiguous().t()
+                    compare("full/transposed-view", lambda: lm(nc_view), exp0, {"T": t, "layout": "transposed"},
+                            args=(nc_view,))
+                # ---- integer dtypes the documentation does not name (it says "long"): may be rejected,
+                # must not give other numbers ------------------------------------------------------
+                if every_chunk or index % 4 == 1:
+                    dt = (torch.int32, torch.int16)[(index // 4) % 2]
+                    h_dt = hist.to(dt)
+                    compare("full/" + str(dt)[6:], lambda: lm(h_dt), exp0, {"T": t, "hist_dtype": str(dt)},
+                            args=(h_dt,), may_reject=True)
+                    i0 = torch.tensor(index % (t + 1), dtype=dt)
+                    compare("idx-scalar/" + str(dt)[6:], lambda: lm(hist, idx=i0), exp0[int(i0)],
+                            {"T": t, "idx": int(i0), "idx_dtype": str(dt), "idx_dim": 0}, args=(hist, i0),
+                            may_reject=True)
+                    iv = ((torch.arange(hist.size(1)) + index) % (t + 1)).to(dt)
+                    compare("idx-vector/" + str(dt)[6:], lambda: lm(hist, idx=iv),
+                            exp0[iv.long(), torch.arange(hist.size(1))],
+                            {"T": t, "idx_dtype": str(dt), "idx_dim": 1}, args=(hist, iv), may_reject=True)
             # ---- chunked -------------------------------------------------------------------------
-            for c in range(1 if (t == T or every_chunk) else 2, t + 3):
+            if t == T or every_chunk:
+                chunks = range(1, t + 3)
+            else:  # light: the forward call is chunk size 1; smallest real chunk and one beyond the end
+                chunks = sorted({2, t + 2})
+            for c in chunks:
                 compare("chunked", lambda: lm.calc_full_log_probs_chunked(hist, dict(), c), exp0,
-                        {"T": t, "chunk_size": c})
+                        {"T": t, "chunk_size": c}, args=(hist,))
             # ---- scalar idx ---------------------------------------------------------------------
             if t == T:
                 for i in range(t + 1):
-                    compare("idx-scalar", lambda: lm(hist, idx=i), exp0[i], {"T": t, "idx": i})
+                    out = compare("idx-scalar", lambda: lm(hist, idx=i), exp0[i], {"T": t, "idx": i},
+                                  args=(hist,))
+                    if i == 0:
+                        keep("scalar idx=0 call, T=%d" % t, out)
                     ineg = i - t - 1
                     arg = torch.tensor(ineg) if i % 2 else torch.tensor([ineg])
                     compare("idx-scalar", lambda: lm(hist, None, arg), exp0[i],
-                            {"T": t, "idx": ineg, "as": "tensor"})
+                            {"T": t, "idx": ineg, "as": "tensor"}, args=(hist, arg))
             else:
-                compare("idx-scalar", lambda: lm(hist, idx=-1), exp0[t], {"T": t, "idx": -1})
-                if t:
+                compare("idx-scalar", lambda: lm(hist, idx=-1), exp0[t], {"T": t, "idx": -1}, args=(hist,))
+                if t and every_chunk:
                     compare("idx-scalar", lambda: lm(hist, idx=torch.tensor(0)), exp0[0], {"T": t, "idx": 0})
         # ---- per-element idx --------------------------------------------------------------------
         for mmin in range(T + 1):
@@ -602,7 +686,8 @@ def check_model(ctx, V, sos, dicts, hists, index, b3, base_case, save_load=False
                 iv = torch.tensor(vec)
                 exp = m.exp[T][iv, torch.tensor(sel)]
                 compare("idx-vector", lambda: lm(hist, idx=iv), exp,
-                        {"T": T, "histories": [hs[s] for s in sel], "idx": list(vec)})
+                        {"T": T, "histories": [hs[s] for s in sel], "idx": list(vec)}, args=(hist, iv))
+        check_kept("after all calls on the constructed model")
         # ---- save -> fresh instance -> load -----------------------------------------------------
         try:
             sd = lm.state_dict()
@@ -616,9 +701,9 @@ def check_model(ctx, V, sos, dicts, hists, index, b3, base_case, save_load=False
         except Exception as e:
             ctx.case(1)
             viol("reload", "raises", {"error": repr(e)[-400:]}, type=type(e).__name__)
-            return
+            return lm
         for t in sorted(m.hists):
-            if every_chunk or t in (0, 1, T):
+            if every_chunk or t in (0, T):
                 hist = m.h[t]
                 compare("full", lambda: lm2(hist), m.exp[t], {"T": t}, True)
         hist = m.h[T]
@@ -630,6 +715,33 @@ def check_model(ctx, V, sos, dicts, hists, index, b3, base_case, save_load=False
         vec_batch(lm2, T, 0, True)
         if every_chunk:
             vec_batch(lm2, T, min(1, T), True)
+        # ---- object history: load this table into the object that was built from (and called with) the
+        # previous table of the same (V, sos) - other size, possibly other order / offset width ------------
+        if carrier is not None:
+            old = carrier["lm"]
+            global_case = dict(base_case, prev_dicts=carrier["dicts"])
+            save_case, base_case_ref[0] = base_case_ref[0], global_case
+            try:
+                try:
+                    old.load_state_dict(sd)
+                except Exception as e:
+                    ctx.case(1)
+                    viol("reuse", "raises", {"error": repr(e)[-400:], "previous_order": carrier["order"]},
+                         type=type(e).__name__)
+                else:
+                    hist = m.h[T]
+                    compare("full", lambda: old(hist), m.exp[T], {"T": T, "previous_order": carrier["order"]},
+                            "reuse")
+                    vec_batch(old, T, 0, "reuse")
+                    ko, kc = carrier["kept"]
+                    if ko is not None and not bool(((ko == kc) | ((ko != ko) & (kc != kc))).all()):
+                        viol("kept-result", "result-changed-by-later-call",
+                             {"result_of": "call before load_state_dict of another table", "before": kc, "after": ko})
+            finally:
+                base_case_ref[0] = save_case
+        check_kept("after save / load / reuse")
+    k0 = kept[0] if kept else (None, None, None)
+    return {"lm": lm, "dicts": dicts_to_json(dicts), "order": N, "kept": (k0[1], k0[2])}
 
 
 # ---- ARPA ---------------------------------------------------------------------------------
@@ -678,6 +790,9 @@ def _same_parse(got, exp, to_base_e):
     return None
 
 
+_ARPA_PREV = []  # [result object, expected, to_base_e, case] of the previous successful parse
+
+
 def check_arpa(ctx, V, sos, dicts, index, base_case):
     A = alphabet(V, sos)
     namings = (
@@ -689,11 +804,17 @@ def check_arpa(ctx, V, sos, dicts, index, base_case):
         name = namings[(variant + index) % 2]
         text = O.to_arpa(dicts, name, variant)
         token2id = {name(t): t for t in A}
-        with open(path, "w") as f:
-            f.write(text)
+        map_copy = dict(token2id)
+        with_path = variant == index % 2  # the path entry point reads one of the two layouts per table
+        if with_path:
+            with open(path, "w") as f:
+                f.write(text)
+        first = True
         for source, to_base_e, use_map in itertools.product(("file", "path"), (False, True, None), (False, True)):
             if to_base_e is None and (source == "path" or use_map):
                 continue  # the default (base 10, with a deprecation warning) once per text
+            if source == "path" and not with_path:
+                continue
             ctx.case(1)
             sig = {"api": "parse_arpa_lm", "source": source, "to_base_e": to_base_e, "token2id": use_map}
             case = dict(base_case, arpa_variant=variant)
@@ -711,6 +832,20 @@ def check_arpa(ctx, V, sos, dicts, index, base_case):
             d = _same_parse(got, exp, bool(to_base_e))
             if d is not None:
                 ctx.violation(dict(sig, symptom="wrong-entries"), case, {"difference": d, "text": text[:600]})
+                continue
+            if token2id != map_copy:
+                ctx.violation(dict(sig, symptom="argument-modified"), case, {"token2id": repr(token2id)[:300]})
+                token2id = dict(map_copy)
+            # two calls in a row on different texts are independent: what the previous call returned
+            # (another layout / another table) must still be what it was
+            if first and _ARPA_PREV:
+                pg, pe, pb, pc = _ARPA_PREV
+                d = _same_parse(pg, pe, pb)
+                if d is not None:
+                    ctx.violation({"api": "parse_arpa_lm", "symptom": "earlier-result-changed-by-later-call"},
+                                  dict(pc, then=case), {"difference": d})
+            first = False
+            _ARPA_PREV[:] = [got, exp, bool(to_base_e), case]
 
 
 # =======================================================================================
@@ -718,17 +853,96 @@ def _tmax(tier):
     return 3 if tier == "quick" else 4
 
 
-def _eval_table(ctx, V, sos, dicts, hists, index, b3, case, arpa=True, every_chunk=True):
-    check_model(ctx, V, sos, dicts, hists, index, b3, case, save_load=index % 2 == 0,
-                every_chunk=every_chunk)
+def _eval_table(ctx, V, sos, dicts, hists, index, b3, case, arpa=True, every_chunk=True, carriers=None):
+    """carriers: dict (V, sos) -> the previous table's model object, into which this table is loaded."""
+    key = (V, sos)
+    car = check_model(ctx, V, sos, dicts, hists, index, b3, case, save_load=index % 2 == 0,
+                      every_chunk=every_chunk, carrier=None if carriers is None else carriers.get(key))
+    if carriers is not None:
+        if car is None:
+            carriers.pop(key, None)
+        else:
+            carriers[key] = car
     if arpa:
         check_arpa(ctx, V, sos, dicts, index, case)
 
 
+# ---- one object, many tables -----------------------------------------------------------------
+HISTORY_TABLES = [  # (name, spec for make_big); V=17, sos=-1 throughout
+    ("uni", dict(V=17, sos=-1, N=1, counts=[])),
+    ("small2", dict(V=17, sos=-1, N=2, counts=[20])),          # uint8 offsets
+    ("large2", dict(V=17, sos=-1, N=2, counts=[300])),         # int16 offsets
+    ("small3", dict(V=17, sos=-1, N=3, counts=[6, 9])),        # uint8
+    ("large3", dict(V=17, sos=-1, N=3, counts=[30, 270])),     # int16
+]
+
+
+def check_history(ctx, seed, only=None):
+    """ONE LookupLanguageModel(17, -1) object receives load_state_dict of table X then table Y for every
+    ordered pair (X, Y) (smaller/bigger, order 1/2/3, uint8<->int16 offsets both ways) and is called with
+    changing lengths / batch sizes after each load: it must behave as a fresh instance holding that table."""
+    V, sos = 17, -1
+    hists = all_hists(alphabet(V, sos), 2)
+    tabs = {}
+    with torch.no_grad():
+        for name, spec in HISTORY_TABLES:
+            dicts = make_big(spec, seed)
+            m = _Model(V, sos, dicts, hists)
+            sd = LookupLanguageModel(V, sos, [dict(d) for d in dicts]).state_dict()
+            tabs[name] = (m, sd)
+        obj = LookupLanguageModel(V, sos)
+        step = 0
+        names = [n for n, _ in HISTORY_TABLES]
+        kept = None
+        for a in names:
+            for b in names:
+                if a == b:
+                    continue
+                for x in (a, b):
+                    step += 1
+                    m, sd = tabs[x]
+                    case = {"kind": "history", "seed": seed, "pair": [a, b], "loaded": x, "step": step}
+                    if only is not None and only != [a, b]:
+                        continue
+                    sig = {"api": "LookupLanguageModel", "mode": "object-history", "order": m.N,
+                           "sos_in_vocab": False, "offsets_dtype": str(sd["offsets"].dtype).replace("torch.", "")}
+                    try:
+                        obj.load_state_dict(sd)
+                        outs = []
+                        for t in (2, 0, 1):  # lengths and batch sizes change between calls
+                            outs.append((t, obj(m.h[t]), m.exp[t]))
+                        outs.append(("chunked", obj.calc_full_log_probs_chunked(m.h[2], dict(), 2), m.exp[2]))
+                        iv = torch.arange(m.h[2].size(1)) % 3
+                        outs.append(("idx-vector", obj(m.h[2], idx=iv)[0], m.exp[2][iv, torch.arange(iv.numel())]))
+                    except Exception as e:
+                        ctx.case(1)
+                        ctx.violation(dict(sig, symptom="raises", type=type(e).__name__), case,
+                                      {"error": repr(e)[-400:]})
+                        obj = LookupLanguageModel(V, sos)
+                        continue
+                    for what, out, exp in outs:
+                        ctx.case(exp.numel() // V)
+                        bad = _agree(out, exp)
+                        if bad is not None:
+                            ctx.violation(dict(sig, symptom="differs-from-fresh-instance"), case,
+                                          {"call": what, "position": bad,
+                                           "expected": None if bad == "shape" else exp[tuple(bad)].item(),
+                                           "observed": None if bad == "shape" else out[tuple(bad)].item()})
+                            break
+                    if kept is not None and not bool(((kept[0] == kept[1]) | ((kept[0] != kept[0]) & (kept[1] != kept[1]))).all()):
+                        ctx.violation(dict(sig, symptom="result-changed-by-later-call"), case,
+                                      {"result_of": "call before this load_state_dict"})
+                    kept = (outs[0][1], outs[0][1].clone())
+    ctx.count("object_history_loads", step)
+
+
 def run_shard(spec, tier, seed):
     ctx = Ctx()
+    carriers = {}
     try:
-        if spec["kind"] == "fam":
+        if spec["kind"] == "history":
+            check_history(ctx, seed)
+        elif spec["kind"] == "fam":
             fams = families(tier)
             for fi in spec["fams"]:
                 f = fams[fi]
@@ -748,7 +962,7 @@ def run_shard(spec, tier, seed):
                         ctx.sample({"V": V, "sos": sos, "order": N, "family": f["fam"],
                                     "prob_dicts": repr(dicts), "history": [sos, 0],
                                     "katz_next_token_logps": O.next_logps(dicts, V, sos, (sos, 0))})
-                    _eval_table(ctx, V, sos, dicts, hists, index, b3, case, every_chunk=full)
+                    _eval_table(ctx, V, sos, dicts, hists, index, b3, case, every_chunk=full, carriers=carriers)
         else:
             bigs = big_specs(tier)
             for j in spec["ids"]:
@@ -762,7 +976,7 @@ def run_shard(spec, tier, seed):
                 case = {"kind": "big", "V": V, "sos": sos, "family": "width-crossing", "index": j,
                         "T": b["T"], "b3": True, "hist": b.get("hist", "all"), "dicts": dicts_to_json(dicts)}
                 ctx.count("big_tables")
-                _eval_table(ctx, V, sos, dicts, hists, j, True, case)
+                _eval_table(ctx, V, sos, dicts, hists, j, True, case, carriers=carriers)
                 if j == 0:
                     ctx.sample({"V": V, "sos": sos, "order": b["N"], "family": "width-crossing",
                                 "nodes_per_level": [len(d) for d in dicts]})
@@ -779,17 +993,27 @@ def finalize(total, tier, seed):
 
 def replay(case):
     ctx = Ctx()
+    if case.get("kind") == "history":
+        check_history(ctx, case["seed"], only=list(case["pair"]))
+        return ctx
     if case.get("kind") not in ("table", "big"):
         return ctx
     dicts = dicts_from_json(case["dicts"])
     V, sos = case["V"], case["sos"]
+    carriers = None
+    if case.get("prev_dicts"):  # rebuild the object that held the previous table and was called with it
+        pd = dicts_from_json(case["prev_dicts"])
+        with torch.no_grad():
+            old = LookupLanguageModel(V, sos, [dict(d) for d in pd])
+            k = old(torch.zeros((1, 2), dtype=torch.long))
+        carriers = {(V, sos): {"lm": old, "dicts": case["prev_dicts"], "order": len(pd), "kept": (k, k.clone())}}
     if case.get("hist") == "structured":
         hists = structured_hists(dicts, V, sos, case["T"])
     else:
         hists = all_hists(alphabet(V, sos), case["T"])
     try:
         _eval_table(ctx, V, sos, dicts, hists, case["index"], case["b3"], case,
-                    every_chunk=case.get("full", True))
+                    every_chunk=case.get("full", True), carriers=carriers)
     finally:
         drop_scratch()
     return ctx
